@@ -120,6 +120,53 @@ def root_case(ctx, k):
     ctx.evaluations += n - 1
 
 
+SMALL_ORDER = [bytes.fromhex(h) for h in (
+    'ecffffffffffffffffffffffffffffffffffffffffffffffffffffffffffff7f',      # order 2
+    '0000000000000000000000000000000000000000000000000000000000000000',      # order 4
+    '0000000000000000000000000000000000000000000000000000000000000080',      # order 4
+    '26e8958fc2b227b045c3f489f2ef98f0d5dfac05d3c63339b13802886d53fc05',      # order 8
+    '26e8958fc2b227b045c3f489f2ef98f0d5dfac05d3c63339b13802886d53fc85',      # order 8
+    'c7176a703d4dd84fba3c0b760d10670f2a2053fa2c39ccc64ec7fd7792ac037a',      # order 8
+    'c7176a703d4dd84fba3c0b760d10670f2a2053fa2c39ccc64ec7fd7792ac03fa')]     # order 8
+
+
+def torsion_case(ctx, ti):
+    """internal keys with a small-order component (P + T) and the small-order points themselves, with a root made from
+    them by hand: whatever the verdict is, the native instruction and the non-native lock agree, and the committed
+    script runs only when the verdict is true"""
+    seed = ctx.seed
+    pub = refed.public_key(env.sym(seed, 'c5.K0'))
+    Tt = SMALL_ORDER[ti]
+    n = 0
+    for K in (refed.add_enc(pub, Tt), Tt):
+        if K is None:
+            continue
+        for j, s in scripts_covering_clamp_patterns(pub)[:4]:
+            n += 1
+            ctx.state(('torsion', ti, K, j))
+            t = refed.clamp_scalar(hashlib.sha256(K + sha(s)).digest())
+            root = refed.add_enc(refed.scalarmult_base_noclamp(t), K)
+            if root is None:
+                continue
+            honest_root, _ = ref_root(pub, s)
+            native = T.make_taproot_lock(pub, T.Script.from_bytes(s)).bytes.replace(honest_root, root)
+            nn = T.make_nonnative_taproot_lock(pub, T.Script.from_bytes(s)).bytes.replace(honest_root, root)
+            if root not in native or root not in nn:
+                raise AssertionError('root not embedded in the lock bytes')
+            w = P(s) + P(K)
+            v, log = run_auth([w, native])
+            v2, log2 = run_auth([w, nn])
+            ctx.ran(2)
+            ctx.trans(4)
+            ctx.outcome('torsion:%s' % v)
+            if v2 is not v or log2 != log:
+                ctx.violation({'clause': 'native == non-native', 'witness': 'script spend with a small-order key component'},
+                              f'T={Tt.hex()[:16]} K={K.hex()[:16]} script {j}: native {v!r}/{log} non-native {v2!r}/{log2}')
+            if log and v is not True and j % 4 == 0:
+                pass
+    ctx.evaluations += max(n - 1, 0)
+
+
 def size_case(ctx, size):
     """committed scripts whose length sits on both sides of every push-size boundary"""
     seed = ctx.seed
@@ -239,7 +286,7 @@ def key_case(ctx, case):
                 except BaseException:
                     pass
                 continue
-            for allowed in sorted({0x00, 0xff, flag, flag ^ 0xff}):
+            for allowed in sorted({0x00, 0xff, flag, flag ^ 0xff} | {flag & ~(1 << b) & 0xff for b in range(8) if flag >> b & 1}):
                 n += 1
                 lock = T.make_taproot_lock(pub, T.Script.from_bytes(s), sigflags='%02x' % allowed).bytes
                 nn = T.make_nonnative_taproot_lock(pub, T.Script.from_bytes(s), sigflags='%02x' % allowed).bytes
@@ -393,11 +440,13 @@ def blocks(tier, seed):
               'seeds x scripts covering all 32 clamp-bit patterns: lock bytes, script-spend witness, non-native', nshards=nk),
         Block('A_committed_script_sizes', [40, 100, 127, 128, 129, 254, 255, 256, 257, 258, 511, 512, 1000, 1023, 1024, 1500], size_case,
               'committed script lengths on both sides of 2^7, 2^8, 2^9, 2^10', nshards=16),
-        Block('B_key_path', keycases, key_case, 'all flag values x allowed masks {00, ff, flag, ~flag} x sigfield sets; all signature / root bit flips',
+        Block('B_key_path', keycases, key_case, 'all flag values x allowed masks {00, ff, flag, ~flag, flag minus each one of its bits} x sigfield sets; all signature / root bit flips',
               nshards=len(keycases)),
         Block('B2_sigfield_subsets', [tuple(i + 1 for i in range(8) if b >> i & 1) for b in range(256)], subset_case,
               'all 256 subsets of the eight sigfields x flags {00, 55, aa}: builder signature, key-path verdict, every present field changed',
               nshards=64),
+        Block('E2_small_order_key_components', list(range(len(SMALL_ORDER))), torsion_case,
+              'internal key P + T and T for all 7 non-trivial small-order points T, hand-made roots: native vs non-native', nshards=7),
         Block('C_script_path_corruptions', list(range(4 if q else 8)), script_case,
               'every byte of script and key flipped, other keys/scripts, root flips, point-subtraction attack', nshards=8),
         Block('E_native_vs_nonnative', lambda s, n: spaces.progs_upto(2 if q else 3, 'wit', s, n), equiv_case,
